@@ -65,7 +65,11 @@ def _run_variant(args):
             except SyntaxError as e:
                 return {'name': variant['name'], 'skipped': True, 'why': 'edit does not parse: %s' % e}
         buf = io.StringIO()
-        code, ck = chk.run_property(pid, 'quick', tmp, write=False, quiet=True, stream=buf)
+        try:
+            code, ck = chk.run_property(pid, 'quick', tmp, write=False, quiet=True, stream=buf)
+        except Exception as e:          # including the wall-clock limit of one analysis
+            return {'name': variant['name'], 'skipped': False, 'code': 2, 'violations': [], 'inconclusive': [],
+                    'errors': ['analysis failed: %r' % e]}
         from sa.core.report import load_known
         known, _ = load_known(pid)
         keys = sorted({o.key for o in ck.violations() if o.key not in known})
